@@ -36,7 +36,9 @@ TargetOf(root, name, sfx, mode) == IF mode = "full" THEN root \o Etc \o Slash \o
 TreeOf(fs, root, name, sfx) == ReadDirsResultC(fs, ToolDirs(root), name, sfx, ToolD, ToolC, FALSE, FALSE, <<>>)
 
 \* the editor: [kind, lines]
-Edited(text, ed) == CASE ed.kind = "keep" -> text [] ed.kind \in {"append", "comment"} -> text \o ed.lines [] OTHER -> ed.lines
+\* the line assigns to the one-character key c: blanks, c, blanks, '=' (whatever layout the writer chose)
+AssignsTo(l, c) == LET t == TrimSp(l) IN Len(t) >= 2 /\ t[1] = c /\ LET r == TrimSp(SubSeq(t, 2, Len(t))) IN Len(r) >= 1 /\ r[1] = 61
+Edited(text, ed) == CASE ed.kind = "keep" -> text [] ed.kind = "dropkey" -> SelectSeq(text, LAMBDA l : ~AssignsTo(l, ed.lines[1][1])) [] ed.kind \in {"append", "comment"} -> text \o ed.lines [] OTHER -> ed.lines
 ScratchPath == <<47, 115>>
 EmptyObj(o) == o.ents = <<>> /\ o.secs = <<>>
 \* result: ok (exit status 0), fs (the file system afterwards), obj (what was written; Null when nothing was)
